@@ -6,6 +6,8 @@ import (
 	logslog "log/slog"
 	"runtime"
 	"strings"
+
+	errorsv3 "gopkg.in/hedzr/errors.v3"
 )
 
 // C14: caller attribution points at the user's call site for every entry
@@ -21,6 +23,13 @@ var (
 	vC14WFn [4]string
 	vC14WLn [4]int
 )
+
+// vC14MakeErr creates an error carrying stack info at a source position that
+// is NOT the logging statement: the record's caller must not be confused
+// with it.
+//
+//go:noinline
+func vC14MakeErr() error { return errorsv3.New("boom") }
 
 // vHere returns function name and line of its caller's current statement.
 func vHere() (string, int) {
@@ -40,7 +49,7 @@ func vC14W2(f func()) { vC14WFn[2], vC14WLn[2] = vHere(); vC14W1(f) }
 //go:noinline
 func vC14W3(f func()) { vC14WFn[3], vC14WLn[3] = vHere(); vC14W2(f) }
 
-const vC14NumEntryPoints = 52
+const vC14NumEntryPoints = 54
 
 func VH_C14() {
 	vProduction()
@@ -66,6 +75,7 @@ func VH_C14() {
 	ctx := context.Background()
 	std := logslog.New(&handler4LogSlog{&logimp{lg}})
 	bridge := NewLogLogger(&logimp{lg}, AlwaysLevel) // a severity the bridge forwards whatever its admission test (C15)
+	stackErr := vC14MakeErr()
 	eps := []func(){
 		func() { vC14Fn, vC14Ln = vHere(); lg.Error("m") }, // Error
 		func() { vC14Fn, vC14Ln = vHere(); lg.Warn("m") }, // Warn
@@ -119,6 +129,8 @@ func VH_C14() {
 		func() { vC14Fn, vC14Ln = vHere(); bridge.Print("m") }, // std log bridge Print
 		func() { vC14Fn, vC14Ln = vHere(); bridge.Println("m") }, // std log bridge Println
 		func() { vC14Fn, vC14Ln = vHere(); bridge.Printf("%s", "m") }, // std log bridge Printf
+		func() { vC14Fn, vC14Ln = vHere(); lg.Error("m", "err", stackErr) }, // Error with a stack-carrying error attribute
+		func() { vC14Fn, vC14Ln = vHere(); lg.InfoContext(ctx, "m", "err", stackErr, "k", 1) }, // InfoContext with a stack-carrying error attribute
 	}
 	e := vChoose(len(eps))
 	vC14W3(eps[e])
